@@ -236,12 +236,6 @@ def strExprEndType (c : Option Char) (n : Char) : TokenType × Nat :=
     else (.StringExprEnd, 0)
   | none => (.StringExprEnd, 0)
 
-def isMacroStatTokType (t : TokenType) : Bool :=
-  TokenType.macroStatRange.1.toNat ≤ t.toNat && t.toNat ≤ TokenType.macroStatRange.2.toNat
-
-def isMacroQuoteCallTokType (t : TokenType) : Bool :=
-  TokenType.macroQuoteCallRange.1.toNat ≤ t.toNat && t.toNat ≤ TokenType.macroQuoteCallRange.2.toNat
-
 def dispatchModeStrExpr (cfg : Cfg) (c : Char) (allowStat : Bool) : Prog Unit := do
   dbg cfg (do pure ((← mode) == .stringExpr allowStat)) "dispatch_mode_str_expr: mode"
   startToken
